@@ -1047,6 +1047,19 @@ func (tr *Tr) libCall(pk, name string, call *ast.CallExpr, env *Env, k econt) st
 		})
 	}
 	switch full {
+	case "strings.Join":
+		// stage H: strings.Join(elems []string, sep string) = the model's Printer.join sep elems
+		if len(call.Args) != 2 {
+			tr.fail(call, "strings.Join with %d arguments", len(call.Args))
+		}
+		return tr.evalList(call.Args, env, func(e *Env, vs []Val) string {
+			l, sep := tr.use(vs[0], call.Args[0]), tr.use(vs[1], call.Args[1])
+			if !(l.typ.K == KSlice && l.typ.Elem.K == KString) || sep.typ.K != KString {
+				tr.fail(call, "strings.Join(%v, %v)", l.typ, sep.typ)
+			}
+			tr.needPrinter = true
+			return k(e, Val{term: "Printer.join " + paren(sep.term) + " " + paren(l.term), typ: tString})
+		})
 	case "big.NewInt":
 		if len(call.Args) != 1 {
 			tr.fail(call, "big.NewInt with %d arguments", len(call.Args))
@@ -1162,6 +1175,13 @@ func (tr *Tr) libCall(pk, name string, call *ast.CallExpr, env *Env, k econt) st
 						tr.fail(call.Args[ai+1], "%%d of a value of type %v", a.typ)
 					}
 				case 'v':
+					// stage H: %v of a value of the interface type Term: fmt calls String() on a Stringer
+					// (after Formatter and error, which no implementor is: termStringers checks the source)
+					if a.typ.K == KIface && a.typ.Name == "Term" {
+						parts = append(parts, tr.termViaStringer(a, call.Args[ai+1]))
+						ai++
+						continue
+					}
 					// %v of an integer whose type declares none of the methods fmt looks for is %d
 					if a.typ.Name == "" || !(a.typ.isSigned() || a.typ.isUnsigned()) {
 						tr.fail(call.Args[ai+1], "%%v of a value of type %v (only a named integer type without String/Error/Format/GoString)", a.typ)
@@ -1177,6 +1197,11 @@ func (tr *Tr) libCall(pk, name string, call *ast.CallExpr, env *Env, k econt) st
 						parts = append(parts, "fmt_d_N "+paren(a.term))
 					}
 				case 's':
+					if a.typ.K == KIface && a.typ.Name == "Term" { // stage H: as %v
+						parts = append(parts, tr.termViaStringer(a, call.Args[ai+1]))
+						ai++
+						continue
+					}
 					if a.typ.K != KString || a.typ.Name != "" {
 						tr.fail(call.Args[ai+1], "%%s of a value of type %v", a.typ)
 					}
@@ -1337,6 +1362,9 @@ func (tr *Tr) callMulti(call *ast.CallExpr, env *Env, k func(*Env, []Val) string
 				}
 				rt = rt.Elem
 				recv = Val{term: recv.term, typ: rt}
+			}
+			if rt.K == KPtr && rt.Elem.Name != "" { // stage H: the embedded field is a pointer (*SymbolTable)
+				rt = rt.Elem
 			}
 			switch {
 			case rt.K == KBigInt:
@@ -1709,4 +1737,34 @@ func (tr *Tr) dispatcher(rt *T, method string, at ast.Node) *FuncInfo {
 	tr.out = append(tr.out, text)
 	tr.infos[key] = d
 	return d
+}
+
+// termViaStringer: the text fmt prints for %v / %s of a non-nil value of the interface type Term.
+// fmt (print.go handleMethods) tries, in this order, Formatter (Format), then for %v/%s error (Error),
+// then Stringer (String).  The source is checked: every implementor of Term (table termImpls) must
+// declare String() with a value receiver and must declare neither Format nor Error nor GoString;
+// then the text is x.String(), i.e. the oracle `tstr x` (the same oracle as an explicit x.String()).
+// A nil Term (printed "<nil>") is not represented as data (GENFN.md section 3).
+func (tr *Tr) termViaStringer(a Val, at ast.Node) string {
+	for _, im := range termImpls {
+		d, has := tr.p.funcs[im.goType+".String"]
+		if !has {
+			tr.fail(at, "%%v of a Term: the implementor %s does not declare String()", im.goType)
+		}
+		if _, ptr := d.Recv.List[0].Type.(*ast.StarExpr); ptr {
+			tr.fail(at, "%%v of a Term: %s.String has a pointer receiver", im.goType)
+		}
+		if d.Type.Params != nil && len(d.Type.Params.List) != 0 || d.Type.Results == nil || len(d.Type.Results.List) != 1 || typeStr(d.Type.Results.List[0].Type) != "string" {
+			tr.fail(at, "%%v of a Term: %s.String is not String() string", im.goType)
+		}
+		for _, m := range []string{"Format", "Error", "GoString"} {
+			if _, bad := tr.p.funcs[im.goType+"."+m]; bad {
+				tr.fail(at, "%%v of a Term: the implementor %s declares %s, which fmt prefers to String()", im.goType, m)
+			}
+		}
+	}
+	if !tr.fn.usesTstr {
+		tr.fail(at, "%%v of a Term in a function without the oracle tstr (the operand must be the value variable of a range statement)")
+	}
+	return "tstr " + paren(a.term)
 }
